@@ -206,6 +206,16 @@ def check(run):
     for la, lb in ([(0, 1), (2, 1), (3, 0), (2, 4)] if quick else itertools.product(range(5), repeat=2)):
         sa, sb = pair_specs(rng, la, lb)
         block_orientation_case(run, sa.copy(sph=False), sb.copy(sph=False))
+    # a very tight shell of high angular momentum (core-correlating f / g functions of heavy elements) against a diffuse s or p
+    # shell a few bohr away: both orientations of the pair must agree to rounding for every block type
+    for lhi, ehi, llo, elo in ([(3, 1.0e3, 0, 0.03), (4, 1.0e3, 1, 0.08), (4, 4.0e3, 0, 0.03)] if quick else
+                               [(lh, eh, ll, el) for lh, eh in ((3, 1.0e3), (3, 4.0e3), (4, 1.0e2), (4, 1.0e3), (4, 4.0e3), (2, 1.0e4))
+                                for ll, el in ((0, 0.03), (1, 0.08))]):
+        hi = ShellSpec(lhi, [0.0, 0.0, 0.0], [ehi, ehi * 0.375], [[1.0], [0.6]])
+        lo = ShellSpec(llo, [3.0, -2.5, 3.0], [elo, elo * 0.375], [[0.7], [1.0]])
+        block_orientation_case(run, lo, hi)
+        block_orientation_case(run, hi, lo)
+        run.count("tight high-l shell against a diffuse low-l shell")
     for ls in ([(0, 1, 1, 0), (1, 0, 2, 1), (2, 0, 0, 1)] if quick else [tuple(rng.randint(0, 2) for _ in range(4)) for _ in range(12)]):
         cs = []
         specs = [rand_shell(rng, l, cs, nprim=rng.randint(1, 2), nseg=1, sph=False, exp_lo=0.1, exp_hi=10.0) for l in ls]
